@@ -428,137 +428,159 @@ func TestC17(t *testing.T) {
 		}
 	}
 
+	// quick: depth 4 over the quick alphabet. thorough: depth 4 over the full
+	// alphabet, then depth 5 over the quick alphabet (150^5 sequences of the full
+	// alphabet are out of reach; the cap is reported if the budget ends first).
 	sizes, apxLens, depth := newSizesQuick, apxLensQuick, 4
 	if env.Thorough() {
-		sizes, apxLens, depth = newSizesThorough, apxLensThorough, 5
+		sizes, apxLens, depth = newSizesThorough, apxLensThorough, 4
 	}
 	rep.Bounds["depth"] = depth
 	rep.Bounds["new_required_sizes"] = sizes
 	rep.Bounds["appendix_lengths"] = apxLens
 
-	var alphabet []op
-	for _, s := range sizes {
-		alphabet = append(alphabet, op{kNew, 0, s})
-	}
-	alphabet = append(alphabet, op{kParse, 0, 1}, op{kParseBad, 0, 0}, op{kParseBad, 0, 1}, op{kParseBad, 0, 2})
-	for i := 0; i < 3; i++ {
-		alphabet = append(alphabet, op{kParse, i, 2})
-	}
-	for i := 0; i < 3; i++ {
-		alphabet = append(alphabet, op{kParse, i, 0}, op{kClone, i, 0}, op{kReply, i, 0}, op{kReply, i, 1}, op{kMutate, i, 0}, op{kSetLink, i, 0}, op{kSetLink, i, 1}, op{kRelease, i, 0})
-		for _, a := range apxLens {
-			alphabet = append(alphabet, op{kSetApx, i, a})
-		}
-	}
-	rep.Bounds["alphabet_size"] = len(alphabet)
-
 	var evals, nontrivial, transitions int64
-	seq := make([]int, 0, depth)
-	var rec func()
-	run := func() {
-		b := frame.NewFrameBuilder()
-		b.SetFrameMargins(off, ovh)
-		c := &ctx{b: b}
-		released, interesting := false, false
-		cloned := false
-		var last op
-		pan, pv := kit.Try(func() {
-			for _, oi := range seq {
-				o := alphabet[oi]
-				last = o
-				if !c.apply(o) {
-					continue
+	pass := func(sizes, apxLens []int, depth int) {
+		var alphabet []op
+		for _, s := range sizes {
+			alphabet = append(alphabet, op{kNew, 0, s})
+		}
+		alphabet = append(alphabet, op{kParse, 0, 1}, op{kParseBad, 0, 0}, op{kParseBad, 0, 1}, op{kParseBad, 0, 2})
+		for i := 0; i < 3; i++ {
+			alphabet = append(alphabet, op{kParse, i, 2})
+		}
+		for i := 0; i < 3; i++ {
+			alphabet = append(alphabet, op{kParse, i, 0}, op{kClone, i, 0}, op{kReply, i, 0}, op{kReply, i, 1}, op{kMutate, i, 0}, op{kSetLink, i, 0}, op{kSetLink, i, 1}, op{kRelease, i, 0})
+			for _, a := range apxLens {
+				alphabet = append(alphabet, op{kSetApx, i, a})
+			}
+		}
+		rep.Bounds["alphabet_size"] = len(alphabet)
+
+		seq := make([]int, 0, depth)
+		var rec func()
+		run := func() {
+			b := frame.NewFrameBuilder()
+			b.SetFrameMargins(off, ovh)
+			c := &ctx{b: b}
+			released, interesting := false, false
+			cloned := false
+			var last op
+			pan, pv := kit.Try(func() {
+				for _, oi := range seq {
+					o := alphabet[oi]
+					last = o
+					if !c.apply(o) {
+						continue
+					}
+					transitions++
+					switch o.kind {
+					case kRelease:
+						released = true
+					case kNew, kParse, kClone:
+						if released {
+							interesting = true
+						}
+						if o.kind == kClone {
+							cloned = true
+						}
+					case kSetApx, kMutate, kReply:
+						if cloned {
+							interesting = true
+						}
+					}
+					c.checkAll(o)
 				}
-				transitions++
-				switch o.kind {
-				case kRelease:
-					released = true
+			})
+			evals++
+			if evals%3000 == 0 {
+				runtime.GC() // between sequences only: every sequence has its own builder and pools
+			}
+			if interesting {
+				nontrivial++
+			}
+			names := make([]string, len(seq))
+			for i, oi := range seq {
+				names[i] = alphabet[oi].String()
+			}
+			if pan {
+				rep.Violate(fmt.Sprintf("panic-in-%s", []string{"new", "parse", "clone", "reply", "setapx", "mutate", "setlink", "release", "parsebad"}[last.kind]), fmt.Sprintf("panic %v at %s in sequence %v", pv, last, names), names)
+			}
+			for _, v := range c.viol {
+				rep.Violate(v.Key, v.Detail+fmt.Sprintf(" — sequence %v", names), names)
+			}
+			if evals%50000 == 1 {
+				rep.Sample(names)
+			}
+			for _, l := range c.lives {
+				kit.Try(func() { l.f.ReturnToPool() })
+			}
+		}
+		// validity pruning: an op on a non-existing frame index makes the whole
+		// sequence equivalent to a shorter one; prune it.
+		var liveCount func(prefix []int) int
+		liveCount = func(prefix []int) int {
+			n := 0
+			for _, oi := range prefix {
+				switch alphabet[oi].kind {
 				case kNew, kParse, kClone:
-					if released {
-						interesting = true
+					n++
+				case kRelease:
+					n--
+				}
+			}
+			return n
+		}
+		top := 0
+		capped := false
+		rec = func() {
+			if capped {
+				return
+			}
+			if len(seq) == depth {
+				if env.Expired() {
+					capped = true
+					rep.Cap(fmt.Sprintf("time budget reached during the depth-%d pass", depth))
+					return
+				}
+				run()
+				return
+			}
+			lc := liveCount(seq)
+			for oi, o := range alphabet {
+				switch o.kind {
+				case kNew:
+					if lc >= 3 {
+						continue
 					}
-					if o.kind == kClone {
-						cloned = true
+				case kParseBad:
+				case kParse, kClone:
+					if (o.i >= lc && !(o.kind == kParse && o.arg == 1)) || lc >= 3 {
+						continue
 					}
-				case kSetApx, kMutate, kReply:
-					if cloned {
-						interesting = true
+				default:
+					if o.i >= lc {
+						continue
 					}
 				}
-				c.checkAll(o)
+				if len(seq) == 1 {
+					top++
+					if !env.Mine(top) {
+						continue
+					}
+				}
+				seq = append(seq, oi)
+				rec()
+				seq = seq[:len(seq)-1]
 			}
-		})
-		evals++
-		if interesting {
-			nontrivial++
 		}
-		names := make([]string, len(seq))
-		for i, oi := range seq {
-			names[i] = alphabet[oi].String()
-		}
-		if pan {
-			rep.Violate(fmt.Sprintf("panic-in-%s", []string{"new", "parse", "clone", "reply", "setapx", "mutate", "setlink", "release", "parsebad"}[last.kind]), fmt.Sprintf("panic %v at %s in sequence %v", pv, last, names), names)
-		}
-		for _, v := range c.viol {
-			rep.Violate(v.Key, v.Detail+fmt.Sprintf(" — sequence %v", names), names)
-		}
-		if evals%50000 == 1 {
-			rep.Sample(names)
-		}
-		for _, l := range c.lives {
-			kit.Try(func() { l.f.ReturnToPool() })
-		}
+		rec()
 	}
-	// validity pruning: an op on a non-existing frame index makes the whole
-	// sequence equivalent to a shorter one; prune it.
-	var liveCount func(prefix []int) int
-	liveCount = func(prefix []int) int {
-		n := 0
-		for _, oi := range prefix {
-			switch alphabet[oi].kind {
-			case kNew, kParse, kClone:
-				n++
-			case kRelease:
-				n--
-			}
-		}
-		return n
+	pass(sizes, apxLens, depth)
+	if env.Thorough() {
+		rep.Bounds["second_pass"] = "depth 5 over the quick alphabet"
+		pass(newSizesQuick[:4], []int{0, 400, 10000}, 5)
 	}
-	top := 0
-	rec = func() {
-		if len(seq) == depth {
-			run()
-			return
-		}
-		lc := liveCount(seq)
-		for oi, o := range alphabet {
-			switch o.kind {
-			case kNew:
-				if lc >= 3 {
-					continue
-				}
-			case kParseBad:
-			case kParse, kClone:
-				if (o.i >= lc && !(o.kind == kParse && o.arg == 1)) || lc >= 3 {
-					continue
-				}
-			default:
-				if o.i >= lc {
-					continue
-				}
-			}
-			if len(seq) == 1 {
-				top++
-				if !env.Mine(top) {
-					continue
-				}
-			}
-			seq = append(seq, oi)
-			rec()
-			seq = seq[:len(seq)-1]
-		}
-	}
-	rec()
 	rep.Add(evals, nontrivial, 0, transitions)
 	rep.Outcome(fmt.Sprintf("sequences=%d", evals))
 	if err := rep.Finish(env); err != nil {
